@@ -36,6 +36,9 @@ enum Op {
     /// several values of one type in ONE stream (a Vec, a Vec of Options, and a tuple with a
     /// sentinel between two values), written and read back as a whole
     WriteTable { ty: Ty, raws: Vec<i64>, codec: Codec },
+    /// the value is serialized plainly and through a writer of the caller that itself serializes
+    /// another value of the type (and the zero value of every type) on each write call
+    WriteNested { ty: Ty, raw: i64, inner_raw: i64, plain_first: bool, codec: Codec },
     /// a value RETURNED by the crate's own arithmetic / conversion is serialized as it comes
     WriteDerived { kind: String, a: i64, b: i64, codec: Codec },
     Sync,
@@ -138,11 +141,11 @@ fn static_str(pool: &[&'static str], s: &str) -> Option<&'static str> {
 
 const CLASSES: [&str; 6] = ["panic", "out_of_range", "roundtrip", "serialize_failed", "layout", "other"];
 const OUTCOME_NAMES: [&str; 6] = ["panic", "ok_out_of_range", "ok_other_in_range", "ok_same", "ok_in_range_damaged_or_foreign", "err"];
-const PROBE_NAMES: [&str; 12] = [
+const PROBE_NAMES: [&str; 13] = [
     "decoded_exactly_min", "decoded_exactly_max", "raw_payload_one_past_a_limit", "raw_payload_integer_extreme",
     "oracle_payload_with_subsecond_part", "malformed_or_out_of_range_text_payload", "json_payload_that_is_not_a_string",
     "value_handed_over_by_another_format", "run_on_a_fresh_thread", "value_produced_by_arithmetic_serialized",
-    "table_of_values_in_one_stream", "other",
+    "table_of_values_in_one_stream", "writer_that_serializes_while_written_to", "other",
 ];
 
 impl Stats {
@@ -689,6 +692,25 @@ fn exec_op(op: &Op, w: &mut World, enumerate: bool, stats: &mut Stats, log: &mut
                 }),
             }
         }
+        Op::WriteNested { ty, raw, inner_raw, plain_first, codec } => {
+            stats.encodes += 2;
+            stats.decodes += 1;
+            stats.probe("writer_that_serializes_while_written_to");
+            log.write(b"wn");
+            log.write_i64(*raw);
+            log.write_i64(*inner_raw);
+            match codec::nested_round_trip(*ty, *raw, *inner_raw, *plain_first, *codec) {
+                Ok(()) => None,
+                Err((class, msg)) => Some(Violation {
+                    class,
+                    sig: format!("nested_writer:{}:{}:{}", class, ty.name(), codec.name()),
+                    detail: format!(
+                        "{} with raw count {} ({}) serialized {} through a writer of the caller that serializes a {} with raw count {} and the zero value of every type on each write call: {}",
+                        ty.name(), raw, codec.name(), if *plain_first { "plainly and then again" } else { "first" }, ty.name(), inner_raw, msg
+                    ),
+                }),
+            }
+        }
         Op::WriteDerived { kind, a, b, codec } => {
             let off = w.disk.data.len();
             let mut wr = w.disk.writer(WriteFault::None);
@@ -1167,7 +1189,10 @@ fn simulate_run(seed: u64, run: u64, fault_free: bool, stats: &mut Stats) -> (Sc
                 let n = 1 + rng.usize_below(5);
                 let raws: Vec<i64> = (0..n).map(|_| draw_value(&mut rng, ty)).collect();
                 let codec = Codec::draw(&mut rng);
+                // (no draws of its own: the streams of all other operations stay what they were)
+                let nested = Op::WriteNested { ty, raw: raws[0], inner_raw: raws[raws.len() - 1] ^ (raws.len() as i64 & 1), plain_first: raws.len() % 2 == 1, codec };
                 step!(Op::WriteTable { ty, raws, codec });
+                step!(nested);
             } else if rng.chance(1, 10) {
                 // a value returned by the crate's own arithmetic, with operands that tend to
                 // land the result on a boundary
@@ -1432,6 +1457,7 @@ fn script_to_json(s: &Script) -> Value {
             Op::ForeignJson { ty, json } => json!({"op": "foreign_json", "type": ty.name(), "json": json}),
             Op::ForeignValue { ty, kind, raw, text, human } => json!({"op": "foreign_value", "type": ty.name(), "kind": kind, "raw": raw, "text": text, "human_readable": human}),
             Op::WriteTable { ty, raws, codec } => json!({"op": "write_table", "type": ty.name(), "raws": raws, "codec": codec.name()}),
+            Op::WriteNested { ty, raw, inner_raw, plain_first, codec } => json!({"op": "write_nested", "type": ty.name(), "raw": raw, "inner_raw": inner_raw, "plain_first": plain_first, "codec": codec.name()}),
             Op::WriteDerived { kind, a, b, codec } => json!({"op": "write_derived", "kind": kind, "a": a, "b": b, "codec": codec.name()}),
             Op::Sync => json!({"op": "sync"}),
             Op::NewDisk => json!({"op": "new_disk"}),
@@ -1477,6 +1503,13 @@ fn script_from_json(v: &Value) -> Result<Script, String> {
             "write_table" => Op::WriteTable {
                 ty: ty()?,
                 raws: o["raws"].as_array().ok_or("raws")?.iter().filter_map(|x| x.as_i64()).collect(),
+                codec: Codec::from_name(o["codec"].as_str().unwrap_or("")).ok_or("codec")?,
+            },
+            "write_nested" => Op::WriteNested {
+                ty: ty()?,
+                raw: o["raw"].as_i64().ok_or("raw")?,
+                inner_raw: o["inner_raw"].as_i64().ok_or("inner_raw")?,
+                plain_first: o["plain_first"].as_bool().unwrap_or(true),
                 codec: Codec::from_name(o["codec"].as_str().unwrap_or("")).ok_or("codec")?,
             },
             "write_derived" => Op::WriteDerived {
